@@ -55,6 +55,24 @@ def run(ctx, R, tier):
     ok = all(gcfg.guarded(n, lambda e: edge_has_fact(e, known)) for n in nn + reads)
     R.check(ok, "C10-R1", "get_next_stream_item|unknown-id-raises-first", "the table is touched and the iterator advanced only for a known stream id", g.loc(),
             "an unknown (forgotten) stream id is not refused before the table / iterator is used")
+    # every value this method hands out is what next(stream) produced in THIS call - one step of the server's iterator per item delivered (no item is sent again,
+    # none is made up) - and the only request it refuses is one for an unknown id (a client that reconnected within the linger period just continues)
+    rets_ = [n for n in walk_no_nested(g.node) if isinstance(n, ast.Return)]
+    bad_ret = [r for r in rets_ if not (r.value is nexts[0])]
+    R.check(bool(rets_) and not bad_ret, "C10-R1", "get_next_stream_item|returns-only-what-next-produced", "every return hands out the value of this call's next(stream)", g.loc(bad_ret[0]) if bad_ret else g.loc(),
+            "`%s` returns something other than the result of next(stream): the client receives an item the server's iterator did not just produce (a repeated or invented element)"
+            % (unparse(bad_ret[0], 60) if bad_ret else ""))
+    early = [n for n in walk_no_nested(g.node) if isinstance(n, ast.Raise) and n.exc is not None and not any(tt is n or any(x is n for x in ast.walk(tt)) for tt in
+             [t for t, part in enclosing_trys(nexts[0], g.node)])]
+
+    def unknown(atom, pol):
+        if isinstance(atom, ast.Compare) and len(atom.ops) == 1 and unparse(atom.left) == sid and tbl_expr(atom.comparators[0]):
+            return (isinstance(atom.ops[0], ast.NotIn) and pol is True) or (isinstance(atom.ops[0], ast.In) and pol is False)
+        return False
+    bad_raise = [r for r in early if not all(gcfg.guarded(n, lambda e: edge_has_fact(e, unknown)) for n in gcfg.nodes_for(r))]
+    R.check(not bad_raise, "C10-R1", "get_next_stream_item|refuses-only-unknown-ids", "outside the failure path of next(stream) the method raises only for an unknown stream id", g.loc(bad_raise[0]) if bad_raise else g.loc(),
+            "`%s` refuses a request for a stream the daemon still knows: a client that comes back within the linger period (or is served before the old connection's "
+            "disconnect was processed) gets an error instead of its next item" % (unparse(bad_raise[0], 60) if bad_raise else ""))
     trys = [t for t, part in enclosing_trys(nexts[0], g.node) if part == "body"]
     ok = bool(trys)
     why = "next(stream) is not inside a try"
@@ -239,6 +257,20 @@ def run(ctx, R, tier):
     R.check(not hk_esc, "C10-R5", "_housekeeping|cannot-fail", "nothing that can raise runs in the expiry pass (no call into user iterators)", hk.loc(),
             "; ".join("%s via %s" % (k[0].split(".")[-1], " -> ".join(w)[-160:]) for k, w in list(hk_esc.items())[:2]) +
             ": an exception ends the housekeeper thread (or the multiplex loop) - expired and abandoned streams are then kept for ever and a client coming back late still gets items")
+    # _housekeeping does nothing while the daemon counts as shutting down: a daemon that was constructed is not (it may be driven through events() or a combined
+    # loop and never enter its own requestLoop) - the last thing __init__ does with the flag is clear it
+    dinit = ctx.fn("Pyro5.server.Daemon.__init__")
+    skip_tests = [n for n in hcfg.nodes if n.kind == "test" and "_shutting_down" in unparse(n.ast.test)]
+    flag_ops = [c for c in walk_no_nested(dinit.node) if isinstance(c, ast.Call) and isinstance(c.func, ast.Attribute) and c.func.attr in ("set", "clear")
+                and isinstance(c.func.value, ast.Attribute) and c.func.value.attr.endswith("__mustshutdown")]
+    if skip_tests:
+        icfg_ = ctx.cfg(dinit)
+        sets_ = [n for c in flag_ops if c.func.attr == "set" for n in ctx.node_of(dinit, c)]
+        clears_ = [n for c in flag_ops if c.func.attr == "clear" for n in ctx.node_of(dinit, c)]
+        okf = bool(clears_) and (not sets_ or icfg_.all_paths_pass(sets_, lambda n: n in clears_, edge_ok=lambda e: e.kind != "exc", targets=[icfg_.exit]))
+        R.check(okf, "C10-R5", "Daemon.__init__|constructed-means-not-shutting-down", "after construction the shutting-down flag is clear (housekeeping runs for every way of driving the daemon)", dinit.loc(),
+                "Daemon.__init__ leaves the shutting-down flag set: _housekeeping returns at once for a daemon that is driven through events() / a combined loop and never calls "
+                "its own requestLoop(), so its streams never expire")
     from .common import config_env_value_stored_as_converted
     config_env_value_stored_as_converted(ctx, R, "C10-R5", "ITER_STREAM_LINGER=0 (drop streams with their connection) and ITER_STREAMING=off are settings of this kind")
     R.check(covered == {"ITER_STREAM_LIFETIME", "ITER_STREAM_LINGER"}, "C10-R5", "_housekeeping|both-expiries", "both the lifetime and the linger expiry are applied", hk.loc(),
